@@ -1,6 +1,7 @@
 import GoLevel.Driver.Key
 import GoLevel.Model.LSM
 import GoLevel.Proofs.LSMCompactView
+import GoLevel.Model.Pick
 import GoLevel.Proofs.LSMSourcesB
 /-!
 Trace validation for the LSM layer (`lsm …` lines, DESIGN.md §2.2 shape 3).
@@ -17,6 +18,11 @@ Each line is checked against the proved model:
                 the overlapping tables under the *user* comparer, level-0 inputs are closed under overlap,
                 and the outputs are a legal cut of `build minSeq base (mergeAll inputs)`;
 * `move`      — the hypotheses of `C06.trivial_move_preserves_wf`;
+* `pick`      — differential: the model's `Pick.expand` (`Model/Pick.lean`, the transcription of
+                `compaction.expand` proved to yield closed inputs in `C06.compaction_inputs_closed`) run on the
+                pinned version from the real level-L inputs answers with the level-L and level-L+1 sets it
+                settles on; the harness expects the real code's sets;
+* `trivial`   — differential: `Pick.newCompaction` from the moved table with the real limits must be `trivial()`;
 * `get`       — `dbGet` on the dumped state (what `C01.lookup_refines_view` is about) answers like `DB.Get`.
 -/
 namespace GoLevel.Driver
@@ -120,6 +126,26 @@ def sourcesVerdict (st : LsmState) (vid : Nat) (mem : List Entry) (frozen : Opti
         else "bad sources-not-ordered"
       | none => "bad sources-not-ordered"
 
+/-- `<n> <num>*`, the format of the harness' `numsStr` -/
+def numsOut (ts : List Table) : String :=
+  ts.foldl (fun acc t => acc ++ " " ++ toString t.num) (toString ts.length)
+
+/-- the level-L and level-L+1 sets the model's `expand` settles on, started from `S0` -/
+def pickVerdict (c : UCmp) (v : Version) (src limit : Nat) (S0 : List Table) : String :=
+  if !(decide (∀ t ∈ S0, t ∈ v.lvl src)) then "illegal source-not-in-version"
+  else match Pick.expand c limit v src S0 with
+    | none => "illegal empty-source"
+    | some e => numsOut e.s0 ++ " " ++ numsOut e.s1
+
+/-- is the compaction the model builds from `[t]` trivial? -/
+def trivialVerdict (c : UCmp) (v : Version) (src expandLimit gpLimit : Nat) (t : Table) : String :=
+  if !(decide (t ∈ v.lvl src)) then "illegal source-not-in-version"
+  else match Pick.newCompaction c ⟨fun _ => expandLimit, fun _ => gpLimit, fun _ => 0⟩ v src [t] with
+    | none => "illegal empty-source"
+    | some cm =>
+      if cm.trivial then "yes"
+      else "no " ++ numsOut cm.s0 ++ " " ++ numsOut cm.s1 ++ " gp " ++ toString (Pick.tSize cm.gp)
+
 def handleLsm (st : LsmState) : List String → Option (LsmState × String)
   | ["reset", c] => do
       let c ← cmpById c
@@ -173,6 +199,19 @@ def handleLsm (st : LsmState) : List String → Option (LsmState × String)
           | _ => none
         | _ => none
       | _ => none
+  | "pick" :: vid :: src :: limit :: n0 :: rest => do
+      let vid ← vid.toNat?; let src ← src.toNat?; let limit ← limit.toNat?; let n0 ← n0.toNat?
+      let (s0, tail) ← parseNats n0 rest
+      if !tail.isEmpty then none
+      else match lookupVersion st vid, lookupTables st s0 with
+        | some v, some S0 => pure (st, pickVerdict st.cmp v src limit S0)
+        | _, _ => pure (st, "illegal unknown-version-or-table")
+  | ["trivial", vid, src, elimit, glimit, num] => do
+      let vid ← vid.toNat?; let src ← src.toNat?; let elimit ← elimit.toNat?; let glimit ← glimit.toNat?
+      let num ← num.toNat?
+      match lookupVersion st vid, lookupTable st num with
+      | some v, some t => pure (st, trivialVerdict st.cmp v src elimit glimit t)
+      | _, _ => pure (st, "illegal unknown-version-or-table")
   | ["move", vid, src, num] => do
       let vid ← vid.toNat?; let src ← src.toNat?; let num ← num.toNat?
       match lookupVersion st vid, lookupTable st num with
